@@ -112,6 +112,14 @@ func H09_mode() {
 			vAssert(len(up.log) > calls && !up.has(mwCertMarshal(c)), "C09.remove-reaches-the-underlying-agent")
 			vAssert(!mwPeek || !mwCacheHas(s, mwCertMarshal(c)), "C09.cache-entry-removed-with-its-certificate")
 			removed[c] = true
+			// removing it also removes its in-memory registration, if any
+			var keep []*ssh.Certificate
+			for _, m := range mem {
+				if m != c {
+					keep = append(keep, m)
+				}
+			}
+			mem = keep
 			if mode && mwCertDecodes(c) {
 				vReach("C09.hidden-removed")
 			}
